@@ -1115,6 +1115,290 @@ def _o_klimit(stats, p, c):
     return out
 
 
+# ---- oracle items for the public entry points, the root finders and the added specification clauses
+
+
+def _scalar_ref(stats, w, el):
+    """the scalar answer (python scalars in) for one element of a broadcast call"""
+    kw = {k: (float(v) if k in "pc" else int(v)) for k, v in el.items()}
+    return _call(stats.order_stats, w, **kw)
+
+
+def _o_apicall(stats, item):
+    """order_stats on array_like arguments restated on the public API: which strings, absent arguments, shape =
+    numpy's broadcast shape, element [idx] = the scalar answer for the arguments' elements, arguments unchanged"""
+    out = []
+    w = item["which"]
+    spec = {k: item.get(k) for k in "pcnr"}
+    inp = dict(item)
+
+    def fail(family, what, observed, required):
+        out.append({"family": family, "what": what, "input": inp, "observed": observed, "required": required})
+
+    kw = {}
+    for k, v in spec.items():
+        if v is None:
+            continue
+        a = np.array([float(x) if k in "pc" else int(x) for x in v["values"]], dtype=float if k in "pc" else np.int64).reshape(v["shape"])
+        kw[k] = a if a.ndim else (float(a) if k in "pc" else int(a))
+    keep = {k: (v.copy() if isinstance(v, np.ndarray) else v) for k, v in kw.items()}
+    try:
+        with warnings.catch_warnings():
+            warnings.simplefilter("ignore")
+            res = stats.order_stats(w, **kw)
+        exc = None
+    except Exception as e:  # noqa: BLE001
+        res, exc = None, e
+    for k, v in kw.items():
+        if isinstance(v, np.ndarray) and (v.shape != keep[k].shape or v.tobytes() != keep[k].tobytes()):
+            fail("argument-array-modified-order-stats", "order_stats('%s') changed the caller's %s array" % (w, k), v.tolist(), keep[k].tolist())
+    if w not in ("c", "r", "n", "p"):
+        if not isinstance(exc, ValueError):
+            fail("order-stats-invalid-which-accepted", "an invalid `which` does not raise ValueError", repr(res) if exc is None else type(exc).__name__, "ValueError")
+        return out
+    reads = {"c": "rnp", "r": "cnp", "n": "crp", "p": "crn"}[w]
+    shapes = [np.shape(kw[k]) if k in kw else () for k in reads]
+    try:
+        bshape = np.broadcast_shapes(*shapes)
+    except ValueError:
+        if exc is None:
+            fail("order-stats-shape-mismatch-accepted", "arguments that cannot be broadcast are accepted", np.shape(res), "an exception")
+        return out
+    size = int(np.prod(bshape)) if bshape else 1
+    if any(k not in kw for k in reads):
+        # an argument the query needs is absent: there is nothing to compute, a value must not come back
+        if exc is None and (size > 0 or w == "c"):
+            fail("order-stats-missing-argument-accepted", "order_stats('%s') returns a value although %s is absent"
+                 % (w, [k for k in reads if k not in kw]), repr(res)[:80], "an exception")
+        return out
+    arrs = np.broadcast_arrays(*[np.asarray(kw[k]) for k in reads])
+    want = np.empty(bshape, dtype=object)
+    for idx in np.ndindex(*bshape):
+        want[idx] = _scalar_ref(stats, w, {k: arrs[i][idx] for i, k in enumerate(reads)})
+    if any(isinstance(x, str) for x in want.ravel()):
+        if exc is None and size:
+            fail("broadcast-mismatch-" + w, "an element whose scalar call raises is accepted in an array call", repr(res)[:80], "an exception")
+        return out
+    if exc is not None:
+        fail("broadcast-mismatch-" + w, "array arguments raise although every element has a scalar answer",
+             "%s: %s" % (type(exc).__name__, str(exc)[:80]), "shape %s" % (bshape,))
+        return out
+    if np.shape(res) != tuple(bshape):
+        fail("broadcast-mismatch-" + w, "result shape is not the broadcast shape of the arguments", list(np.shape(res)), list(bshape))
+        return out
+    got = np.asarray(res)
+    if w in ("r", "n"):
+        ok = got.dtype.kind in "iu" and np.array_equal(got.astype(object), want) if size else got.dtype.kind in "iu"
+    else:
+        ok = got.dtype.kind == "f" and (not size or np.allclose(got.astype(float), want.astype(float), rtol=0, atol=1e-9))
+    if not ok:
+        fail("broadcast-mismatch-" + w, "array arguments do not give the scalar answers elementwise (%s)" % w,
+             got.tolist(), want.tolist())
+    if not bshape and isinstance(res, np.ndarray):
+        fail("broadcast-mismatch-" + w, "scalar arguments return an array", "ndarray", "a scalar")
+    # the quantity asked for is not read: supplying it must not matter
+    if item.get("probe_unknown", True) and size and size <= 6:
+        junk = {"c": 0.123, "r": 3, "n": 17, "p": 0.321}[w]
+        res2 = _call(stats.order_stats, w, **dict(kw, **{w: junk}))
+        if isinstance(res2, str) or np.shape(res2) != np.shape(res) or not np.allclose(np.asarray(res2, dtype=float), got.astype(float), rtol=0, atol=1e-12):
+            fail("order-stats-unknown-argument-read", "supplying the quantity that is asked for changes the answer",
+                 res2 if isinstance(res2, str) else np.asarray(res2).tolist(), got.tolist())
+    return out
+
+
+def _gen_apicall(rng):
+    w = rng.choice("crnp") if rng.random() < 0.9 else rng.choice(_BADWHICH)
+    reads = {"c": "rnp", "r": "cnp", "n": "crp", "p": "crn"}.get(w, "pcn")
+    shapes = dict(zip(reads, _compatible_shapes(rng, 3)))
+    item = {"kind": "apicall", "which": w, "p": None, "c": None, "n": None, "r": None}
+    for k in reads:
+        if rng.random() < 0.05:
+            continue
+        sh = shapes[k]
+        size = int(np.prod(sh)) if sh else 1
+        if k == "p":
+            vals = [rng.choice(["0.5", "0.75", "0.9", "0.95", "0.6", "0.25"]) if rng.random() < 0.7 else "0.%02d" % rng.randint(5, 95) for _ in range(size)]
+        elif k == "c":
+            vals = [rng.choice(["0.5", "0.9", "0.75", "0.2", "0.95"]) if rng.random() < 0.7 else "0.%02d" % rng.randint(3, 97) for _ in range(size)]
+        elif k == "n":
+            vals = [rng.randint(1, 60) for _ in range(size)]
+        else:
+            vals = [rng.randint(1, 4) if rng.random() < 0.85 else rng.randint(0, 9) for _ in range(size)]
+        item[k] = {"shape": list(sh), "values": [str(v) for v in vals]}
+    return item
+
+
+def _o_kcall(stats, item):
+    """ksingle / kdouble on array_like arguments: shape = broadcast shape, elementwise = scalar calls, arguments unchanged"""
+    out = []
+    inp = dict(item)
+    arrs = [np.array(item[k]["values"], dtype=float if k != "n" else np.int64).reshape(item[k]["shape"]) for k in "pcn"]
+    try:
+        bshape = np.broadcast_shapes(*[a.shape for a in arrs])
+    except ValueError:
+        bshape = None
+    for name in ("ksingle", "kdouble"):
+        fn = getattr(stats, name)
+        args = [a.copy() if a.ndim else a[()].item() for a in arrs]
+        keep = [a.copy() if isinstance(a, np.ndarray) else a for a in args]
+        res = _call(fn, *args)
+        for k, a, b in zip("pcn", args, keep):
+            if isinstance(a, np.ndarray) and a.tobytes() != b.tobytes():
+                out.append({"family": "argument-array-modified-" + name, "what": "%s changed the caller's %s array" % (name, k),
+                            "input": inp, "observed": a.tolist(), "required": b.tolist()})
+        if bshape is None:
+            if not isinstance(res, str):
+                out.append({"family": "broadcast-mismatch-" + name, "what": "arguments that cannot be broadcast are accepted",
+                            "input": inp, "observed": list(np.shape(res)), "required": "an exception"})
+            continue
+        b3 = np.broadcast_arrays(*arrs)
+        want = np.empty(bshape, dtype=float)
+        for idx in np.ndindex(*bshape):
+            v = _call(fn, float(b3[0][idx]), float(b3[1][idx]), int(b3[2][idx]))
+            want[idx] = np.nan if isinstance(v, str) else float(v)
+        ok = (not isinstance(res, str)) and np.shape(res) == tuple(bshape) and np.allclose(np.asarray(res, dtype=float), want, rtol=1e-10, atol=1e-12, equal_nan=True)
+        if not ok:
+            out.append({"family": "broadcast-mismatch-" + name, "what": "array arguments do not give the scalar answers elementwise (%s)" % name,
+                        "input": inp, "observed": res if isinstance(res, str) else np.asarray(res).tolist(), "required": want.tolist()})
+    return out
+
+
+def _gen_kcall(rng):
+    shp = _compatible_shapes(rng, 3)
+    if rng.random() < 0.9:
+        # always compatible here
+        tgt = rng.choice([(2, 3), (3,), (2, 1, 2), (4,), ()])
+        shp = [tuple(d if rng.random() < 0.6 else 1 for d in tgt[rng.randint(0, len(tgt)):]) for _ in range(3)]
+    item = {"kind": "kcall"}
+    for k, sh in zip("pcn", shp):
+        size = int(np.prod(sh)) if sh else 1
+        if k == "p":
+            vals = [rng.choice([0.5, 0.75, 0.9, 0.95, 0.99, 0.999]) for _ in range(size)]
+        elif k == "c":
+            vals = [rng.choice([0.5, 0.9, 0.95, 0.1, 0.75, 0.99]) for _ in range(size)]
+        else:
+            vals = [rng.randint(2, 12) if rng.random() < 0.5 else rng.randint(2, 3000) for _ in range(size)]
+        item[k] = {"shape": list(sh), "values": vals}
+    return item
+
+
+def _o_proot(stats, item):
+    """order_stats('p'): the returned coverage sits inside a sign-change bracket of brentq's width (exact rational
+    arithmetic): THE root (p_query_exists_unique) is within that width (bisect_brackets_root); no root -> ValueError"""
+    out = []
+    c, n, r = item["c"], item["n"], item["r"]
+    inp = dict(item)
+    P = _call(stats.order_stats, "p", c=float(c), n=n, r=r)
+    if not (1 <= r <= n):
+        if P != "value-error":
+            out.append({"family": "order-stats-p-no-root-accepted", "what": "'p' returns although no coverage has this confidence (r = 0 or r > n)",
+                        "input": inp, "observed": P, "required": "ValueError"})
+        return out
+    if isinstance(P, str) or not 0.0 < float(P) < 1.0:
+        out.append({"family": "order-stats-p-raises", "what": "'p' fails although exactly one coverage in (0, 1) has this confidence",
+                    "input": inp, "observed": P, "required": "a coverage in (0, 1)"})
+        return out
+    P = float(P)
+    delta = 2 * (2e-12 + 4 * np.finfo(float).eps)      # twice brentq's default xtol + rtol |x| on [0, 1]
+    cf = Fraction(c)
+    lo = _cmp_tail(n, r, 1 - Fraction(min(1.0, P + delta)), cf)[0]   # coverage a little larger: confidence must be <= c
+    hi = _cmp_tail(n, r, 1 - Fraction(max(0.0, P - delta)), cf)[0]   # coverage a little smaller: confidence must be >= c
+    if lo > 0 or hi < 0:
+        out.append({"family": "order-stats-p-not-root", "what": "the confidence does not cross c within brentq's tolerance of the returned coverage",
+                    "input": inp, "observed": {"p": P, "sign(conf(p+d)-c)": lo, "sign(conf(p-d)-c)": hi}, "required": "<= 0 and >= 0"})
+    return out
+
+
+def _o_newton(stats, item):
+    """_getr: the loop converges below the cap; the hypotheses of newton_monotone_convex are measured (tangent inequality
+    on R >= 0, first iterate >= 0) and its conclusions observed on the same iteration (monotone from the first iterate,
+    bounded by the root)"""
+    from scipy.stats import norm
+
+    out = []
+    n, prob = item["n"], item["prob"]
+    inp = dict(item)
+
+    def fail(family, what, observed, required):
+        out.append({"family": family, "what": what, "input": inp, "observed": observed, "required": required})
+
+    s = 1 / math.sqrt(n)
+    g = lambda R: norm.cdf(s + R) - norm.cdf(s - R) - prob
+    d = lambda R: (math.exp(-(s + R) ** 2 / 2) + math.exp(-(s - R) ** 2 / 2)) / math.sqrt(2 * math.pi)
+    getr = getattr(stats, "_getr", None)
+    if getr is None:
+        return out
+    try:
+        with warnings.catch_warnings():
+            warnings.simplefilter("error")
+            R = float(getr(n, prob, 1e-12))
+    except RuntimeWarning as e:
+        fail("getr-not-converged", "_getr reaches MAXLOOPS", str(e)[:80], "convergence")
+        return out
+    except Exception as e:  # noqa: BLE001
+        fail("getr-raises", "_getr raises", "%s: %s" % (type(e).__name__, str(e)[:60]), "a number")
+        return out
+    if not abs(g(R)) <= 1e-10:
+        fail("getr-residual", "Phi(1/sqrt n + R) - Phi(1/sqrt n - R) != prob at the returned R", g(R) + prob, prob)
+    # hypotheses of the theorem
+    for x, y in item["xy"]:
+        if g(y) > g(x) + d(x) * (y - x) + 1e-13:
+            fail("spec-hypothesis-newton-concave", "tangent inequality fails: the residual is not concave on R >= 0",
+                 {"x": x, "y": y, "g(y)": g(y), "tangent": g(x) + d(x) * (y - x)}, "g(y) <= g(x) + g'(x)(y - x)")
+    x0 = norm.ppf(prob + (1 - prob) / 2) * (1 + 1 / (2 * n))
+    xs = [x0]
+    for _ in range(12):
+        xs.append(xs[-1] - g(xs[-1]) / d(xs[-1]))
+    if xs[1] < 0:
+        fail("spec-hypothesis-newton-first-iterate", "the first Newton iterate is negative", xs[1], ">= 0")
+    elif any(b < a - 1e-13 for a, b in zip(xs[1:-1], xs[2:])) or any(x > R + 1e-11 for x in xs[1:]):
+        fail("getr-newton-not-monotone", "iterates after the first are not nondecreasing / exceed the root", xs, "monotone, <= %r" % R)
+    return out
+
+
+def _o_nctasym(stats, item):
+    """the two clauses of NctAsym (hypotheses of ksingle_tendsto / ksingle_ge_normal) measured with scipy"""
+    from scipy.stats import nct
+
+    out = []
+    c, df, nc = item["c"], item["df"], item["nc"]
+    with warnings.catch_warnings():
+        warnings.simplefilter("ignore")
+        q = float(nct.ppf(c, df, nc))
+        if math.isfinite(q):
+            B = 4 / min(c, 1 - c) + 4
+            if not abs(q - nc) <= B * (1 + abs(nc) / math.sqrt(df)):
+                out.append({"family": "spec-hypothesis-nct-near", "what": "nct quantile is not within B_c (1 + |nc|/sqrt df) of nc",
+                            "input": dict(item), "observed": q, "required": "|q - nc| <= %g" % (B * (1 + abs(nc) / math.sqrt(df)))})
+        if nc >= 0:
+            m = float(nct.cdf(nc, df, nc))
+            if math.isfinite(m) and m > 0.5 + 1e-9:
+                out.append({"family": "spec-hypothesis-nct-median", "what": "P(T <= nc) > 1/2 for nc >= 0", "input": dict(item),
+                            "observed": m, "required": "<= 0.5"})
+    return out
+
+
+def _o_kge(stats, item):
+    """k >= z_p for c >= 1/2, p >= 1/2 at every n >= 2 (ksingle_ge_normal), and the rate of ksingle_rate"""
+    from scipy.stats import norm
+
+    out = []
+    p, c, n = item["p"], item["c"], item["n"]
+    k = _call(stats.ksingle, p, c, n)
+    z = float(norm.ppf(p))
+    if isinstance(k, str) or not math.isfinite(float(k)):
+        return out
+    k = float(k)
+    if c >= 0.5 and p >= 0.5 and k < z - 1e-9 * max(1.0, abs(z)):
+        out.append({"family": "ksingle-limit", "what": "one-sided factor below the normal quantile although c >= 0.5", "input": dict(item),
+                    "observed": k, "required": ">= %r" % z})
+    B = 4 / min(c, 1 - c) + 4
+    if n >= 2 and abs(k - z) > B * (1 / math.sqrt(n) + abs(z) / math.sqrt(n - 1)):
+        out.append({"family": "ksingle-limit", "what": "one-sided factor not within B_c (1/sqrt n + |z_p|/sqrt(n-1)) of the normal quantile",
+                    "input": dict(item), "observed": k, "required": "near %r" % z})
+    return out
+
+
 def _run_oracle(stats, item, rng=None):
     kind = item["kind"]
     if kind == "order":
@@ -1129,6 +1413,18 @@ def _run_oracle(stats, item, rng=None):
         return _o_klimit(stats, item["p"], item["c"])
     if kind == "broadcast":
         return _o_broadcast(stats, item)
+    if kind == "apicall":
+        return _o_apicall(stats, item)
+    if kind == "kcall":
+        return _o_kcall(stats, item)
+    if kind == "proot":
+        return _o_proot(stats, item)
+    if kind == "newton":
+        return _o_newton(stats, item)
+    if kind == "nctasym":
+        return _o_nctasym(stats, item)
+    if kind == "kge":
+        return _o_kge(stats, item)
     return []
 
 
@@ -1142,6 +1438,15 @@ def search(ctx, hints):
             items.append(dict(i, kind="order"))
         elif i.get("which") in ("ksingle", "kdouble", "newton"):
             items.append({"kind": "kfactor", "p": i["p"], "c": i["c"], "n": i["n"]})
+        elif "absent" in i:                      # a disagreement of the `api` stream: the same call, restated on the API
+            items.append({"kind": "apicall", "which": i["which"], **{k: i[k] for k in "pcnr"}})
+        elif "shapes" in i:                      # a disagreement of the k-factor array streams
+            arrs = {k: np.asarray(i[k]) for k in "pcn"}
+            items.append({"kind": "kcall", **{k: {"shape": list(a.shape), "values": a.ravel().tolist()} for k, a in arrs.items()}})
+            for pp in np.unique(arrs["p"].ravel())[:3]:
+                for nn in np.unique(arrs["n"].ravel())[:3]:
+                    items.append({"kind": "kfactor", "p": float(pp), "c": float(arrs["c"].ravel()[0]) if arrs["c"].size else 0.9, "n": int(nn)})
+                    items.append({"kind": "newton", "n": int(nn), "prob": float(pp), "xy": []})
     # base stream ------------------------------------------------------------------
     for cs in _gen_order(ctx, ctx.pick(3000, 12000), ctx.pick(2000, 20000)):
         items.append({"kind": "order", "which": cs[0], "p": cs[1], "c": cs[2], "n": cs[3], "r": cs[4]})
@@ -1155,6 +1460,32 @@ def search(ctx, hints):
     for p in (0.9, 0.95, 0.99, 0.99865):
         for c in (0.1, 0.5, 0.75, 0.9, 0.99):
             items.append({"kind": "klimit", "p": p, "c": c})
+    # the decision table of order_stats on scalars: every `which` x every subset of absent arguments
+    for w in ["c", "r", "n", "p", "x", "", "C", "rr"]:
+        for mask in range(16):
+            a = {"p": "0.9", "c": "0.9", "n": "30", "r": "2"}
+            items.append({"kind": "apicall", "which": w, "probe_unknown": True,
+                          **{k: (None if mask >> j & 1 else {"shape": [], "values": [a[k]]}) for j, k in enumerate("pcnr")}})
+    for _ in range(ctx.pick(250, 1200)):
+        items.append(_gen_apicall(rng))
+    for _ in range(ctx.pick(40, 200)):
+        items.append(_gen_kcall(rng))
+    for _ in range(ctx.pick(150, 800)):
+        n = rng.randint(1, 60) if rng.random() < 0.8 else rng.randint(60, 300)
+        r = rng.randint(1, min(n, 8)) if rng.random() < 0.9 else rng.choice([0, n + 1, n + 3])
+        items.append({"kind": "proot", "c": _dec(rng, "c"), "n": n, "r": r})
+    for _ in range(ctx.pick(150, 800)):
+        n = rng.randint(2, 30) if rng.random() < 0.6 else int(10 ** rng.uniform(1.5, 7))
+        prob = rng.choice([0.5, 0.9, 0.95, 0.99, 0.9973, 0.999]) if rng.random() < 0.5 else round(rng.uniform(0.01, 0.9999), 4)
+        items.append({"kind": "newton", "n": n, "prob": prob, "xy": [(rng.uniform(0, 6), rng.uniform(0, 6)) for _ in range(6)]})
+    for _ in range(ctx.pick(150, 800)):
+        c = rng.choice([0.01, 0.05, 0.1, 0.5, 0.9, 0.99, 0.999]) if rng.random() < 0.6 else round(rng.uniform(0.02, 0.98), 3)
+        df = float(int(10 ** rng.uniform(0, 6)))
+        u = rng.random()
+        nc = 0.0 if u < 0.1 else rng.uniform(0, 5) if u < 0.4 else math.sqrt(df + 1) * rng.uniform(0, 3.5) if u < 0.85 else -rng.uniform(0, 50)
+        items.append({"kind": "nctasym", "c": c, "df": df, "nc": nc})
+    for p, c, n in _gen_k(ctx, ctx.pick(150, 800)):
+        items.append({"kind": "kge", "p": p, "c": c, "n": n})
     for it in items:
         ctx.count("oracle:" + it["kind"])
         for f in _run_oracle(stats, it, rng):
